@@ -89,6 +89,10 @@ def pipeD (op : String) (args : List Nat) : Option String :=
   | "bufdrop" => some <| match args with
       | [_, k, n] => ok [if n == 0 then k else min k n]
       | _ => reject
+  | "pipepanic4" => some <| match args with
+      -- the same verdict whatever locks the consumer holds
+      | [_, n, j] => if j < n then "ok exit 1" else "ok exit 0"
+      | _ => reject
   | "pipepanic3" => some <| match args with
       -- the same verdict whatever other pipes were created or dropped before
       | [_, n, j] => if j < n then "ok exit 1" else "ok exit 0"
